@@ -143,6 +143,10 @@ func Unpack(dst, src []byte) ([]byte, error) {
 			src = src[1:]
 			n := copy(dst[start:], src)
 			src = src[n:]
+			if start+n < len(dst) {
+				// src ended inside the literal run.
+				return dst[:start+n], io.ErrUnexpectedEOF
+			}
 		}
 	}
 	return dst, nil
